@@ -171,6 +171,18 @@ def run(tier, seed):
     res2, rc, dt2 = conc.run_scenarios(live, tag="c09b")
     if rc != 0:
         r.broken.append("concurrency harness exited with status %s in the schedule exploration" % rc)
+    if tier != "quick":
+        # the same random schedules once more with 16 shards per map (other key placements, finer yield points)
+        keep = {sc.name: sc.runs for sc in live}
+        for sc in live:
+            sc.runs = [x for x in sc.runs if x.startswith("run rand")][:200]
+        res3, rc3, dt3 = conc.run_scenarios(live, shards=16, tag="c09c")
+        for sc in live:
+            sc.runs = keep[sc.name]
+            res2.setdefault(sc.name, []).extend(("16sh " + dr, d) for (dr, d) in res3.get(sc.name, []))
+        if rc3 != 0:
+            r.broken.append("concurrency harness exited with status %s in the 16-shard pass" % rc3)
+        dt2 += dt3
     r.stats["impl_s"] = round(dt + dt2, 2)
     # pass 3: replay on the Lean model
     cases = core.Cases(); r.last_cases = cases
@@ -193,10 +205,11 @@ def run(tier, seed):
             nruns += 1
             kinds[sc.meta["kind"]] = kinds.get(sc.meta["kind"], 0) + 1
             where = f"scenario {sc.name} ({sc.meta['kind']}), schedule `{dr}`"
+            rdir = dr[5:] if dr.startswith("16sh ") else dr
             st = d.get("status", "?")
             if st != "ok":
                 msg = f"{where}: {st} — the workers did not all complete"
-                v.violation(f"{sc.name}-{nruns}", msg, f"# {msg}\n" + sc.replay_text("run " + dr)); continue
+                v.violation(f"{sc.name}-{nruns}", msg, f"# {msg}\n" + sc.replay_text("run " + rdir)); continue
             ops = d.get("ops", [])
             # non-trivial: two workers touch the same name of a shared map, interleaved
             seen = {}
@@ -220,7 +233,7 @@ def run(tier, seed):
                         else:
                             msg = (f"{where}: the undeclared-fixture findings {und['undeclared']} are those of no sequential order "
                                    f"({[u['undeclared'] for u in seq_und]}) although the index itself is")
-                            v.violation(f"{sc.name}-{nruns}-undeclared", msg, f"# {msg}\n" + sc.replay_text("run " + dr))
+                            v.violation(f"{sc.name}-{nruns}-undeclared", msg, f"# {msg}\n" + sc.replay_text("run " + rdir))
                 else:
                     diff = []
                     for s_ in secs:
@@ -228,7 +241,7 @@ def run(tier, seed):
                             diff.append(f"{s_}: {c.get(s_)} vs sequential {[q.get(s_) for q in seq_canon]}")
                     msg = (f"{where}: the resulting index is that of no sequential order of the same analyses — "
                            + ("; ".join(diff) if diff else "the combination of maps matches no single order")[:900])
-                    v.violation(f"{sc.name}-{nruns}", msg, f"# {msg}\n# operations: {' '.join(ops)}\n" + sc.replay_text("run " + dr))
+                    v.violation(f"{sc.name}-{nruns}", msg, f"# {msg}\n# operations: {' '.join(ops)}\n" + sc.replay_text("run " + rdir))
             # (3) Lean replay
             final = conc.parse_dump(d["dump"])
             for mp, sec in (("definitions", "defs"), ("usage_by_fixture", "ubf")):
@@ -258,7 +271,7 @@ def run(tier, seed):
     r.stats["runs_by_scenario_kind"] = kinds
     r.stats["runs_equal_to_a_sequential_order_only_up_to_cross_file_order"] = norder
     r.stats["shards"] = 2
-    return r.finish(RULE, assumptions=[
+    return r.finish(RULE, extra_cov={"traces_validated_against_impl": r.corr_checked}, assumptions=[
         "yield points are the blocking shard-lock acquisitions of DashMap; code between two of them runs atomically in the exploration (it touches no other shared state than the three std Mutexes, which no analysed path holds across a map call)",
         "the theorems' hypothesis WFProg is checked on the recorded single-worker programs of the generated scenarios, not proved of the Rust source"])
 
@@ -269,7 +282,7 @@ def replay(path):
     open(p, "w").write(sc_lines)
     conc.build()
     import subprocess
-    env = dict(os.environ, PLSV_SHARDS="2", RUST_BACKTRACE="0")
+    env = dict(os.environ, PLSV_SHARDS=os.environ.get("PLSV_SHARDS", "2"), RUST_BACKTRACE="0")   # `16sh` runs: PLSV_SHARDS=16 ./check … --replay
     out = subprocess.run([conc.PLSVC_BIN, "run", p], stdout=subprocess.PIPE, env=env).stdout.decode()
     os.remove(p)
     print(out)
